@@ -80,3 +80,22 @@ props["C08"]["manifest"] = {
     "note": "Trusted: Lean kernel and the three standard axioms; the harness/driver; HashMap iteration being a permutation. Not modelled: SccGraph::{obliviate, keep_only} (unused by blocks), the checker's RecGroup handling.",
     "technique": "Lean 4 mirror with scheduler-parametrised iteration + kernel-checked theorems + exhaustive small-graph differential correspondence + permutation metamorphic oracle",
 }
+
+props["C06"] = {
+    "harness": "c06",
+    "level": "proof",
+    "tables": ["roles"],
+    "nontrivial": r"^c06 seq ",
+    "rule": "the role table (126 rows: source name, host name, arity, ABI classifier) is regenerated from the code into ZV/Generated/Roles.lean and the table theorems are re-checked; each sequence case runs 1-12 host operations on ONE real Runtime (handle table persists) with arguments drawn from the role's own ABI classifier (boundary integers and indices around string lengths, code points around the surrogate gap, Unicode strings mixing 1-4 byte scalars, valid / truncated / overlong / surrogate / out-of-range UTF-8 buffers, open, closed and never-issued handles, missing and fresh paths in a scratch directory, several stdin and argv contents) and compares every step's outcome, the output sink and the final files with the Lean model. Non-trivial = distinct sequences.",
+    "explanation": "Kernel-checked over the table regenerated from the code: arity = number of ABI value parameters for all 126 roles, names unique; plus the theorems listed under `theorems` about the mirrored operations (statements not yet proved stay as `Statement.*` in ZV/Props/C06.lean and are not counted). The mirror is compared with the real interpreter on sequences of operations over one runtime.",
+    "trusted_base": [KERNEL, AXIOMS, HARNESS,
+                     "regenerated on every run: the role table (BuiltinValueRole::{all, source_name, host_name, arity}, BuiltinOperationAbi::for_role)",
+                     "modelled, not verified: lang/dynamics/src/impls.rs, host.rs and lang/syntax/src/text.rs are mirrored by ZV/Model/Host.lean and compared on every run; the operating system behind file operations (only regular files and missing paths are modelled; permission errors, directories, and one path aliased by two writers or by a reader and a writer are outside the model); random_int's value; float operations and float to_string (compared with Lean's native floats, not proved); the Builtin signature validator is exercised by the C01/C03 mutant streams, not here"],
+    "assumptions": ["Lean's core UTF-8 decoder (ByteArray.utf8Decode?, proved against List.utf8Encode in core) and Rust's str::from_utf8 accept the same byte strings (observed on every generated buffer)"],
+}
+
+props["C06"]["manifest"] = {
+    "text": "The 126-row role table (names, arities, ABI classifiers) is regenerated from the code on every run and the table theorems re-checked by the kernel (arity = ABI parameter count, unique names); impls.rs / host.rs / text.rs are mirrored role by role in Lean, with the handle table and a small file system as state, and compared with the real interpreter on sequences of operations over one runtime with arguments drawn from each role's own classifier; contract theorems (every role honours its classifier for all argument values, scalar-indexed text operations, code points, integer parsing, UTF-8 round trip, handle-table invariant, closed handles stay closed) are stated in full in ZV/Props/C06.lean and proved there as they land.",
+    "note": "Trusted: Lean kernel and the three standard axioms; the harness/driver/table dumper. Not modelled: OS behaviour beyond regular files and missing paths, random_int's value, float arithmetic/rendering (correspondence only), signature validation (C01/C03 streams).",
+    "technique": "regenerated table + decide over the whole table, Lean mirror of the host operations with kernel-checked contract theorems, sequence-level differential correspondence",
+}
